@@ -641,7 +641,7 @@ func init() {
 		ID:    "C06",
 		Level: "model_checking",
 		Rule: "full matrix: every ordered pair of pool values (every variant type with boundaries: 0, +-1, width limits, 2^53+1, +-0, NaN, +-Inf, empty/non-ASCII strings, time spans, date-times in two zones, arrays incl. empty and nested, objects) x 19 binary operators + every value x 2 unary operators, under both managers, " +
-			"against a reference operator table (Null rules, second operand converted by the manager under test, host arithmetic of the first operand's type, error required for division/modulo by zero, negative shifts and out-of-range indexes, true exponentiation); plus the relational laws on every ordered pair and operands unchanged; plus, for every cell, the same call on a long-lived manager after the same operand objects were used once and then given other values of their type in place (must equal what fresh objects give), and the same call repeated after the caller overwrote the returned variant (results, operands and variants.Empty must be unaffected); non-trivial = cases where the reference defines the outcome",
+			"against a reference operator table (Null rules, second operand converted by the manager under test, host arithmetic of the first operand's type, error required for division/modulo by zero, negative shifts and out-of-range indexes, true exponentiation); plus the relational laws on every ordered pair and operands unchanged; plus membership in lists of 8..65 elements of one type holding every pool value at the first, middle, last or no position, for every needle of the pool; plus the same object as both operands; plus, for every cell, the same call on a long-lived manager after the same operand objects were used once and then given other values of their type in place (must equal what fresh objects give), and the same call repeated after the caller overwrote the returned variant (results, operands and variants.Empty must be unaffected); non-trivial = cases where the reference defines the outcome",
 		Assume: []string{"Convert of the manager under test is used to obtain the converted second operand (C07 decides Convert itself)", "operations on first-operand types outside the statement's list are only required not to crash and to return exactly one of result/error", "shift counts >= 64: host result or error"},
 		Spaces: func(tier string) []fw.Space {
 			pool := valuePool(tier)
@@ -672,6 +672,15 @@ func init() {
 						j /= int64(len(c06Binary))
 						return fmt.Sprintf("%s %s(%s, %s), result overwritten by the caller, same call again", mgrName(i%2 == 1), op, pool[int(j)/len(pool)].label, pool[int(j)%len(pool)].label)
 					}},
+				{Name: "wide-membership", N: n * n * 4 * int64(len(widthCountsSmall)) * 2, Run: func(c *fw.Ctx, i int64) { c06WideIn(c, pool, i) },
+					Repr: func(i int64) string {
+						j := i / 2
+						k := widthCountsSmall[int(j)%len(widthCountsSmall)]
+						j /= int64(len(widthCountsSmall))
+						w := j % 4
+						j /= 4
+						return fmt.Sprintf("%s In(list of %d values of one type with %s at position class %d, %s)", mgrName(i%2 == 1), k, pool[int(j)/len(pool)].label, w, pool[int(j)%len(pool)].label)
+					}},
 				{Name: "laws", N: n * n * 2, Run: func(c *fw.Ctx, i int64) { c06Laws(c, pool, i) },
 					Repr: func(i int64) string {
 						return fmt.Sprintf("%s relational laws on (%s, %s)", mgrName(i%2 == 1), pool[int(i/2)/len(pool)].label, pool[int(i/2)%len(pool)].label)
@@ -682,6 +691,64 @@ func init() {
 			return fmt.Sprintf("pool of %d values: all ordered pairs x 19 operators x 2 managers; all values x 2 unary x 2 managers", len(valuePool(tier)))
 		},
 	})
+}
+
+// ---- width pump for membership: lists of k elements of ONE type holding the needle's value at the
+// first, middle or last position (or not at all), needle x element pairs over the whole pool
+
+func c06WideIn(c *fw.Ctx, pool []poolVal, i int64) {
+	safe := i%2 == 1
+	i /= 2
+	k := widthCountsSmall[int(i)%len(widthCountsSmall)]
+	i /= int64(len(widthCountsSmall))
+	where := int(i % 4) // 0 first, 1 middle, 2 last, 3 absent
+	i /= 4
+	pe, pn := pool[int(i)/len(pool)], pool[int(i)%len(pool)]
+	elem, needle := pe.mk(), pn.mk()
+	if elem.Type() == variants.Array || elem.Type() == variants.Null || elem.Type() == variants.Object {
+		c.Outcome("not-applicable")
+		return
+	}
+	// fillers: the other pool values of the element's type that the reference says differ from the needle
+	fill := []poolVal{}
+	for _, p := range pool {
+		v := p.mk()
+		if v.Type() != elem.Type() {
+			continue
+		}
+		if r := refBinary("Equal", safe, needle, v); r.kind == "value" && r.val == false {
+			fill = append(fill, p)
+		}
+	}
+	if len(fill) == 0 {
+		c.Outcome("no-fillers")
+		return
+	}
+	items := make([]*variants.Variant, k)
+	for j := range items {
+		items[j] = fill[j%len(fill)].mk()
+	}
+	switch where {
+	case 0:
+		items[0] = elem
+	case 1:
+		items[k/2] = elem
+	case 2:
+		items[k-1] = elem
+	}
+	list := variants.VariantFromArray(items)
+	ref := refBinary("In", safe, list, needle)
+	var r *variants.Variant
+	var err error
+	pv := fw.Try(func() { r, err = callBinary(opsManager(safe), "In", list, needle) })
+	c.Eval(1)
+	if msg := c06Compare(ref, r, err, pv); msg != "" {
+		c.Violation("In:wide-list:"+tn(elem.Type()), "%s In(list of %d %s values with %s at %s, %s): %s", mgrName(safe), k, tn(elem.Type()), pe.label, []string{"the first position", "the middle", "the last position", "no position"}[where], pn.label, msg)
+	}
+	if ref.kind != "open" {
+		c.Nontrivial()
+	}
+	c.Outcome(fmt.Sprintf("In:%s:%s", tn(elem.Type()), ref.kind))
 }
 
 // ---- reused manager / operands mutated in place (differential against fresh objects)
